@@ -10,6 +10,8 @@ CONSTANTS
     MaxNow = 1000
     MaxOps = 1000
     MaxQ = 2
+    InsertFirst = FALSE
+    WithHold = TRUE
     Hist = FALSE
     Depth = 150
 INVARIANTS EmitSchedule
